@@ -77,6 +77,16 @@ Definition must_sync (x u : opinfo) : bool := cross_core x u && shares x u.
 Definition same_block_segment (p : Z) (seg : list opinfo) : bool :=
   forallb (fun y => oi_parent y =? p) seg.
 
+(* an op that can never be put on the pending list and is no barrier: the ops inside the body of a
+   linalg.generic / streaming region (they only use block arguments and each other) *)
+Definition inert (flat : list opinfo) (y : opinfo) : bool :=
+  negb (is_sync y) && forallb (fun x => negb (memb (oi_id y) (adds flat x))) flat.
+
+(* a straight-line segment of the block with parent id p: every op is a direct child of the block
+   or inert (nested in the body of a non-control op) *)
+Definition seg_ok (flat : list opinfo) (p : Z) (seg : list opinfo) : bool :=
+  forallb (fun y => (oi_parent y =? p) || inert flat y) seg.
+
 (* ---- finding classes (classifier of a racing pair found by L2; decidable on the input) ------- *)
 (* ops strictly between the first a and the next b after it (nothing when b does not follow a) *)
 Fixpoint upto (b : Z) (r : list opinfo) : option (list opinfo) :=
@@ -103,10 +113,10 @@ Definition classify_pair (flat : list opinfo) (a b : Z) : Z :=
   | Some x, Some u =>
       if negb (shares x u || shares u x) then 1
       else if negb (oi_parent x =? oi_parent u) then 2
-      else if negb (same_block_segment (oi_parent x) (between a b flat) &&
-                    same_block_segment (oi_parent x) (between b a flat) &&
+      else if negb (seg_ok flat (oi_parent x) (between a b flat) &&
+                    seg_ok flat (oi_parent x) (between b a flat) &&
                     (* in a loop body the path may go around the back-edge: the whole body must be straight-line *)
-                    (if oi_pfor x then same_block_segment (oi_parent x) (between (oi_parent x) (oi_pyield x) flat) else true)) then 3
+                    (if oi_pfor x then seg_ok flat (oi_parent x) (between (oi_parent x) (oi_pyield x) flat) else true)) then 3
       else 0
   | _, _ => 1
   end.
